@@ -419,6 +419,32 @@ fn selftest_replay(a: &Args) -> i32 {
     (bad > 0) as i32
 }
 
+/// Stub-fidelity differential, simulated half: sequential fault-free scripts and the quiescent
+/// snapshots the simulation observed, one JSON object per line (consumed by `nreal seqdiff`).
+fn seqdiff(a: &Args) -> i32 {
+    let seed = a.u64("--seed", 1);
+    let start = a.u64("--start", 0);
+    let count = a.u64("--count", 100);
+    let out = a.get("--out").expect("--out");
+    let mut lines = Vec::new();
+    for i in start..start + count {
+        let property = ["C07", "C12", "C06", "C19"][(i % 4) as usize];
+        let (script, _) = generate(property, seed, i, false);
+        let AnyScript::Nucleo(n) = script else { continue };
+        let seq = world_nucleo::sequentialise(&n);
+        let o = exec::run_one(Rc::new(seq.clone()), None);
+        if let Some(v) = o.violations.first() {
+            println!("seqdiff: simulated sequential run {i} violates {} {}: {}", v.property, v.class, v.message);
+            return 1;
+        }
+        let snaps: Vec<&String> = o.log.iter().filter(|l| l.contains("QUIESCENT ")).collect();
+        lines.push(serde_json::to_string(&json!({"index": i, "script": seq, "quiescent": snaps})).unwrap());
+    }
+    std::fs::write(&out, lines.join("\n") + "\n").expect("write");
+    println!("seqdiff: {} sequential scripts written to {out}", lines.len());
+    0
+}
+
 fn main() {
     let args: Vec<String> = std::env::args().skip(1).collect();
     if args.is_empty() {
@@ -433,6 +459,7 @@ fn main() {
         "minimise" => minimise::main(&a.0[1..]),
         "determinism" => determinism(&a),
         "selftest-replay" => selftest_replay(&a),
+        "seqdiff" => seqdiff(&a),
         x => {
             eprintln!("unknown command {x}");
             2
